@@ -2,7 +2,7 @@
 schema) with real keys, real certificates and a compiled LVS schema, and drives
 lvs_validator(checker, app, anchor) on legacy NDNApps over the virtual loop with a harness producer.
 
-  KeyPool        real key pairs, generated once per run (EC P-256; a few RSA-2048 / Ed25519 on demand)
+  KeyPool        real key pairs, generated once per run (EC P-256; RSA-1024 / Ed25519 on demand)
   materialise    world -> real names and wires (new_cert / self_sign / derive_cert, make_data)
   Scenario       one world, several validator instances (one application + face each);
                  stimuli = Env actions of the spec (NewValidator, Validate, FetchReply)
@@ -66,8 +66,6 @@ class KeyPool:
 
     def get(self, kt, i):
         ks = self.keys[kt]
-        if kt == 'rsa':
-            i = i % 3                      # RSA generation is slow: three keys, reused (distinct roles may share a key)
         while len(ks) <= i:
             if kt == 'ec':
                 k = ECC.generate(curve='P-256')
@@ -76,7 +74,7 @@ class KeyPool:
                 k = ECC.generate(curve='Ed25519')
                 ks.append((k.export_key(format='DER'), bytes(k.public_key().export_key(format='DER'))))
             else:
-                k = RSA.generate(2048)
+                k = RSA.generate(1024)        # the smallest size PyCryptodome generates: key size is not what C14 is about
                 ks.append((k.export_key(format='DER'), bytes(k.public_key().export_key(format='DER'))))
         return ks[i]
 
@@ -273,7 +271,10 @@ class Scenario:
         elif kind == 'nack':
             self._deliver(v, enc.make_network_nack(w, 150))
         else:
+            # no answer: the lifetime (4 s) passes - for every instance that is waiting
             self.sess.loop.advance_to(self.sess.loop.time() + 4.0)
+            for u in self.insts:
+                self.pending[u] = []
         self.sess.loop.settle()
         self._scan()
 
